@@ -25,7 +25,11 @@ REQUIRED_THEOREMS = ["in_exactly_once", "transfer_ends_short_or_zlp", "host_data
                      "inv_reachable", "packet_len_le_mps", "retry_repeats_pid_and_payload", "nak_when_no_packet",
                      "send_packet_streams_buffer", "read_buffer_frozen", "pid_flips_only_with_new_packet"]
 RULE = ("cases = max_packet_size in {1,2,3,8,64,512} x mode; modes: 'host' (legal host + producer with transfers of "
-        "0.5..3 packets incl. exact multiples, flush pulses, lost/late/foreign ACKs, tokens to other endpoints), "
+        "0.5..3 packets, 30 % of them exact multiples of the packet size (terminating ZLP), flush pulses, the handshake of "
+        "a data packet lost / late / another device's in 38 %, that of a terminating ZLP in 52 % (so retried and "
+        "re-retried ZLPs are common), tokens to other endpoints; the monitor requires every IN token outside a packet to "
+        "be answered: NAK or ZLP in the response cycle or data from the next one (sig no-response), and a retried ZLP to "
+        "be the same ZLP with the same PID (sig zlp-retry-differs)), "
         "'zlp0' (generate_zlps=0), 'reset' (reset_sequence strobes with start_with_data1 0/1), 'discard', 'chaos' "
         "(per-cycle random inputs, model comparison only), 'ep' (the USBStreamInEndpoint wrapper with endpoint "
         "numbers and clear_endpoint_halt)")
@@ -42,6 +46,9 @@ ASSUMPTIONS = [
     "only then",
     "the monitor's closed-loop host additionally issues an ACK strobe (with active & is_in) only after a completely "
     "transmitted packet and before the next token; ack and new_token never in the same cycle",
+    "monitor clause no-response: judged for IN tokens (active & is_in & ready_for_response) outside a packet that are "
+    "preceded by a new_token strobe since the last completed packet (the FSM has left WAIT_FOR_ACK) and do not coincide "
+    "with reset_sequence (which takes priority over the token in WAIT_TO_SEND) or discard",
 ]
 PARTIAL = ""
 
@@ -88,7 +95,9 @@ class Agent:
     def pick_len(self):
         r, m = self.r, self.mps
         k = r.below(10)
-        if k < 5:
+        if k < 3:
+            return m * r.choice([1, 1, 2, 2, 3])          # exact multiple: ends in a terminating ZLP
+        if k < 6:
             return max(1, r.choice([1, m - 1, m, m + 1, 2 * m - 1, 2 * m, 2 * m + 1, 3 * m]))
         return r.range(1, 3 * m + 2)
 
@@ -119,7 +128,7 @@ class Agent:
         elif self.phase == "resp":
             # outputs of the ready_for_response cycle: NAK, a ZLP (valid & last, comb), or nothing yet
             if self.last_rfr and valid and last:
-                self.after_packet()
+                self.after_packet("zlp")
             elif nak or not (self.active and self.is_in):
                 self.phase, self.cnt = "gap", r.range(0, self.poll_gap)
             else:
@@ -133,7 +142,7 @@ class Agent:
                     self.phase, self.cnt = "gap", r.range(0, self.poll_gap)
         if self.phase == "pkt":
             if valid and last and self.last_ready:
-                self.after_packet()
+                self.after_packet("data")
             elif not valid:
                 self.phase, self.cnt = "gap", r.range(0, self.poll_gap)
         elif self.phase == "post":
@@ -188,9 +197,15 @@ class Agent:
 
     pv_valid = 0
 
-    def after_packet(self):
+    def after_packet(self, kind="data"):
+        """What the host does after a completely transmitted packet.  The handshake of a terminating ZLP is lost
+        (no ACK / another device's ACK / ACK after the next token) about every second time, repeatedly in a row
+        with the same odds, so retried ZLPs -- and retried retries -- are common; data packets lose it in 38 %."""
         r = self.r
-        self.plan = r.weighted([(62, "ack"), (22, "none"), (8, "foreign"), (8, "late")])
+        if kind == "zlp":
+            self.plan = r.weighted([(48, "ack"), (30, "none"), (10, "foreign"), (12, "late")])
+        else:
+            self.plan = r.weighted([(62, "ack"), (22, "none"), (8, "foreign"), (8, "late")])
         self.phase, self.cnt = "post", r.range(0, 5)
 
 
@@ -226,6 +241,7 @@ def monitor_digest(mps, mode, stim, rows):
     resets = False
     pending_reset = None     # start_with_data1 of a reset that must show in the next new packet
     last_tok_naked = False
+    pending_in = None        # cycle of an IN token that got neither NAK nor a ZLP: its data packet must start now
     produced_at = []         # len(produced) at the start of each cycle
     for t, (i, o) in enumerate(zip(stim, rows)):
         active, is_in, rfr, nt, ack, sv, sp, sl, flush, discard, genz, rs, swd1, ready = i
@@ -236,6 +252,17 @@ def monitor_digest(mps, mode, stim, rows):
             tags.add("env:discard")
             return fails, sorted(tags), digest        # after a discard nothing is promised about delivery
         flush_seen = flush_seen or bool(flush)
+        await_at_start = await_ack
+        # ---- every IN token is answered: NAK or a ZLP in the ready_for_response cycle, else data from the next cycle
+        if pending_in is not None:
+            if not valid:
+                what = ""
+                if prev_pkt is not None and not prev_pkt[2]:
+                    what = " (the un-ACKed %s DATA%d must be sent again)" % (
+                        "terminating ZLP" if not prev_pkt[1] else "%d-byte packet" % len(prev_pkt[1]), prev_pkt[0])
+                fail(t, "no-response", "the IN token whose response window opened in cycle %d got no response at all: "
+                     "neither NAK nor a ZLP in that cycle, and no data packet starts in this one%s" % (pending_in, what))
+            pending_in = None
         # ---- packets as the host sees them
         done = None
         if valid:
@@ -264,6 +291,11 @@ def monitor_digest(mps, mode, stim, rows):
         if done is not None:
             if prev_pkt is not None and not prev_pkt[2] and not resets:
                 # the previous packet was never acknowledged: this must be the same packet again
+                if not prev_pkt[1]:
+                    tags.add("zlp-retry")
+                    if done or pid != prev_pkt[0]:
+                        fail(t, "zlp-retry-differs", "the un-ACKed terminating ZLP (DATA%d) was followed by (DATA%d, %d bytes %s) "
+                             "instead of the same ZLP with the same PID" % (prev_pkt[0], pid, len(done), done[:8]))
                 if (pid, done) != (prev_pkt[0], prev_pkt[1]):
                     fail(t, "retry-differs", "un-ACKed packet (DATA%d, %s) was followed by (DATA%d, %s)"
                          % (prev_pkt[0], prev_pkt[1][:8], pid, done[:8]))
@@ -324,6 +356,11 @@ def monitor_digest(mps, mode, stim, rows):
             if nak and prev_pkt is not None and not prev_pkt[2] and not resets:
                 fail(t, "nak-while-unacked", "IN token NAKed while packet DATA%d is un-ACKed" % prev_pkt[0])
             last_tok_naked = bool(nak)
+        # an IN token (all modes) outside a packet, at least one new_token after the last packet (the FSM has left
+        # WAIT_FOR_ACK), no reset_sequence in the same cycle (it takes priority over the token in WAIT_TO_SEND)
+        if intok and cur is None and done is None and not nak and not rs and not await_at_start:
+            pending_in = t
+            tags.add("in-answered-next-cycle")
         if nak and not intok:
             fail(t, "nak-unsolicited", "NAK without an IN token")
         if nak and valid:
